@@ -2,7 +2,7 @@ SPEC = {
     "lean_modules": ["AM.Props.C02"],
     "theorems": [
         "AM.Silence.mutes_correct", "AM.Silence.inv_step", "AM.Silence.reachable_inv",
-        "AM.Silence.mutes_eq_bruteforce", "AM.Silence.takes_effect_next_flush",
+        "AM.Silence.mutes_eq_bruteforce", "AM.Silence.takes_effect_next_flush", "AM.Silence.effective_after_merge",
         "AM.Silence.mutes_eq_bruteforce_partial", "AM.Silence.revival_counterexample",
         "AM.Silence.cacheInv_step", "AM.Silence.cacheInv_time", "AM.Silence.cacheInv_postGC", "AM.Silence.cacheInv_fresh",
         "AM.Silence.step_mergeOne", "AM.Silence.step_gc", "AM.Silence.set_step", "AM.Silence.expire_step",
